@@ -287,7 +287,7 @@ def repo_hash(parts=("sbepp", "sbeppc")):
     return hash_files(fs)
 
 
-def gc_cache(keep=6):
+def gc_cache(keep=600):
     """keep the cache bounded: remove oldest hash dirs"""
     try:
         ds = [os.path.join(CACHE, d) for d in os.listdir(CACHE) if os.path.isdir(os.path.join(CACHE, d))]
@@ -371,7 +371,7 @@ def cached_cpp(name, src_text_or_path, std="c++17", cxx="g++", flags=("-O1",), i
         if os.path.exists(exe):
             os.utime(d)
             return exe
-        gc_cache(keep=40)
+        gc_cache(keep=600)
         os.makedirs(d, exist_ok=True)
         t0 = time.time()
         rc, err = compile_cpp(src, exe + ".tmp", std, cxx, flags, includes, defines, timeout)
@@ -537,7 +537,7 @@ def gen_headers(name, xml_text, extra=(), sanitize=False):
             os.utime(d)
             m = json.load(open(meta))
             return os.path.join(d, "out"), m["rc"], m["out"]
-        gc_cache(keep=40)
+        gc_cache(keep=600)
         shutil.rmtree(d, ignore_errors=True)
         os.makedirs(d)
         xml = os.path.join(d, name + ".xml")
